@@ -48,6 +48,7 @@ def gen_cases(tier, seed):
                 g.pop('ew', None)
                 g.pop('nw', None)
             c['graph'] = g
+            c.pop('prehistory', None)
             k2 = len(c['spec']['statuses'])
             c['IC'] = [r.randrange(k2) for _ in range(g['n'])]
         c['tmax'] = c['tmin'] + r.choice([0.5, 2.0, 5.0])
